@@ -307,6 +307,16 @@ func (s *Scheme) runDKG(ctx context.Context, membership *membership, dkgProtocol
 			allowedList: universalIDsToUintMap(universalIds),
 		}
 
+		s.Logger.Debugf("Running keygen with parties %v", members)
+
+		// The protocol instance is initialized before anything can be routed to it: a message of a peer
+		// that arrives earlier is dropped by the dispatcher instead of reaching an uninitialized instance.
+		if err := s.initializeDKG(dkgProtocolInstance, t, parties, UIntsToUniversalIDs(members), membership); err != nil {
+			s.Logger.Errorf("Failed initializing DKG: %v", err)
+			resultChan <- mpcResult{err: err}
+			return
+		}
+
 		s.lock.Lock()
 		if ctx.Err() != nil {
 			// KeyGen has already returned and cleaned up, do not leave anything registered behind
@@ -319,14 +329,6 @@ func (s *Scheme) runDKG(ctx context.Context, membership *membership, dkgProtocol
 
 		if rbcExisted {
 			panic("Programming error: we shouldn't have gotten to a situation with two concurrent signing with the same topic")
-		}
-
-		s.Logger.Debugf("Running keygen with parties %v", members)
-
-		if err := s.initializeDKG(dkgProtocolInstance, t, parties, UIntsToUniversalIDs(members), membership); err != nil {
-			s.Logger.Errorf("Failed initializing DKG: %v", err)
-			resultChan <- mpcResult{err: err}
-			return
 		}
 
 		// We use a synchronizer to synchronize on the hash of the parties, to ensure that all parties that participate
